@@ -2,7 +2,7 @@
 (* Universe for C08 (mode "emit") and judge over recorded observations (mode "judge").          *)
 EXTENDS FlowCall, Json, IOUtils
 CONSTANTS Mode, MaxParams, Part, Parts
-V == {"i1", "ss", "bT", "n", "l12", "da1"}
+V == {"i1", "i0", "se", "bF", "n", "l12", "da1"}      \* incl. the values that are false in a condition: 0, "", False, None
 D == {"-", "i7", "sd"}
 Sigs == UNION {[1..n -> D] : n \in 0..MaxParams}
 RECURSIVE SetToSeq(_)
@@ -15,7 +15,7 @@ Forms == {"await", "start", "paren", "when", "group"}
 Data == IF Mode = "judge" THEN JsonDeserialize(IOEnv.TRACE_FILE) ELSE <<>>
 VARIABLES sig, call, form, k
 vars == <<sig, call, form, k>>
-Code(t) == CASE t = "i1" -> 1 [] t = "ss" -> 2 [] t = "bT" -> 3 [] t = "n" -> 4 [] t = "l12" -> 5 [] t = "da1" -> 6
+Code(t) == CASE t = "i1" -> 1 [] t = "ss" -> 2 [] t = "bT" -> 3 [] t = "i0" -> 10 [] t = "se" -> 11 [] t = "bF" -> 12 [] t = "n" -> 4 [] t = "l12" -> 5 [] t = "da1" -> 6
              [] t = "-" -> 7 [] t = "i7" -> 8 [] t = "sd" -> 9
 RECURSIVE HS(_, _)
 HS(s, i) == IF i = 0 THEN 0 ELSE (HS(s, i - 1) * 31 + Code(s[i])) % 9973
